@@ -622,6 +622,8 @@ class Interp:
             if c is not _MISSING:
                 return c
             raise Undecided(f"{self.clsname}.{attr}")
+        if isinstance(obj, TypeRef) and attr in ("__name__", "__qualname__"):
+            return obj.name
         if isinstance(obj, TypeRef):
             ch = self.foreign(obj.name)
             if ch is not None:
@@ -635,6 +637,18 @@ class Interp:
         if isinstance(obj, ObjV):
             if attr in obj.attrs:
                 return obj.attrs[attr]
+            if obj.cls and obj.cls != self.clsname:
+                ch = self.foreign(obj.cls)
+                fm = ch.method(attr) if ch is not None else None
+                if fm is not None:
+                    decos = [ast.unparse(d) for d in fm.decorator_list]
+                    if "property" in decos:
+                        return ch.call_function(fm, [], {}, bound_first=obj)
+                    return Closure(fm, {"__self__": obj}, owner="self", interp=ch)
+                if ch is not None:
+                    c = ch.class_const(attr)
+                    if c is not _MISSING:
+                        return c
             if attr == "__setattr__":
                 def _set(a, k, o=obj):
                     if len(a) != 2 or not isinstance(a[0], str):
@@ -778,6 +792,8 @@ class Interp:
                 return [self.apply(args[0], list(t), {}) for t in zip(*its)]
             if name == "filter" and len(args) == 2:
                 return [x for x in self.iterate(args[1]) if self.truth(self.apply(args[0], [x], {}) if args[0] is not None else x)]
+            if name == "type" and len(args) == 1:
+                return TypeRef(self.kind_of(args[0]))
             if name == "bool" and len(args) == 1 and not isinstance(args[0], (Sym, Coerced)):
                 return self.truth(args[0])
             if name in ("takewhile", "itertools.takewhile", "dropwhile", "itertools.dropwhile") and len(args) == 2:
